@@ -322,6 +322,63 @@ def _eval_case(case):
         nt = True
         if bad:
             fails.append(['ssh1-crc32-wrong-under-concurrent-first-use', '%d wrong checksums in %d x %d concurrent first uses' % (bad, case['reps'], case['threads'])])
+    elif k == 'enc_threads':
+        # several threads encode (and decode) values at once, each with its own buffer objects: no call may see another's data
+        import sys
+        import threading
+        from ssh_audit.writebuf import WriteBuf
+        from ssh_audit.readbuf import ReadBuf
+        vals = [int(v) for v in case['values']]
+        old = sys.getswitchinterval()
+        bad = []
+        try:
+            sys.setswitchinterval(1e-6)
+            bar = threading.Barrier(case['threads'])
+
+            def w(i):
+                bar.wait()
+                for rep in range(case['reps']):
+                    n = vals[(i + rep) % len(vals)]
+                    e2 = WriteBuf().write_mpint2(n).write_flush()
+                    e1 = WriteBuf().write_mpint1(abs(n)).write_flush()
+                    el = WriteBuf().write_list(['n%d' % n, str(i)]).write_flush()
+                    if e2 != wire.mpint(n) or e1 != wire.mpint1(abs(n)) or ReadBuf(e2).read_mpint2() != n or ReadBuf(e1).read_mpint1() != abs(n) or ReadBuf(el).read_list() != ['n%d' % n, str(i)]:
+                        bad.append(n)
+            ts = [threading.Thread(target=w, args=(i,)) for i in range(case['threads'])]
+            [t.start() for t in ts]
+            [t.join() for t in ts]
+        finally:
+            sys.setswitchinterval(old)
+        nt = True
+        if bad:
+            fails.append(['encoding-wrong-under-concurrent-use', '%d wrong results in %d threads x %d rounds, e.g. value %d' % (len(bad), case['threads'], case['reps'], bad[0])])
+    elif k == 'send_hist':
+        # a history of packets on one socket object across connections, some sends failing (peer gone): every packet that
+        # reaches a connection must be exactly the packet written for it - nothing left over from an earlier attempt
+        import socket as _socket
+        s2, cap = _tool_socket(b'')
+        nt = True
+        for i, (plen, outcome) in enumerate(case['ops']):
+            payload = bytes([0x20 + i % 64]) + bytes((i * 7 + j) & 0xff for j in range(plen))
+            if outcome == 'fail':
+                class _Dead(_CapSock):
+                    def send(self, d):
+                        raise _socket.error(32, 'Broken pipe')
+                cap = _Dead()
+                s2._SSH_Socket__sock = cap
+            elif outcome == 'reconnect':
+                s2.close()
+                cap = _CapSock()
+                s2._SSH_Socket__sock = cap
+            before = len(cap.sent)
+            s2.write(payload)
+            s2.send_packet()
+            if not isinstance(cap, _CapSock) or type(cap) is _CapSock:
+                raws, rest = wire.split_packets(cap.sent[before:])
+                got = [wire.check_packet_framing(r)[0] for r in raws]
+                if rest or got != [payload]:
+                    fails.append(['packet-carries-leftovers-of-an-earlier-send', 'op %d of %r: sent %d bytes decoding to %d packet(s), first payloads %r, expected one packet %r' % (i, case['ops'], len(cap.sent) - before, len(got), [g[:8].hex() if g else None for g in got[:2]], payload[:8].hex())])
+                    break
     elif k == 'frame_ref':
         # packets from the reference encoder (every legal padding) must be read back by the tool
         n, pad = case['len'], case['pad']
@@ -453,6 +510,13 @@ def run(ctx):
         cases.append({'kind': 'frame_seq', 'lens': [3000 + 13 * i for i in range(30)] + [5, 4000, 17], 'seg': seg})
         cases.append({'kind': 'frame_seq', 'lens': [900] * 90 + [1, 2, 3], 'seg': seg})
     cases += [{'kind': 'crc_threads', 'data': 'The quick brown fox' * (i + 1), 'threads': 4 + i % 5, 'reps': 12} for i in range(6 if q else 40)]
+    # values of the same length in words (what a shared scratch buffer would be keyed by), and of mixed lengths
+    cases += [{'kind': 'enc_threads', 'values': [str((0x1234567 + 0x01010101 * j) << (32 * w) | (j + 1)) for j in range(8)] + ([str(-((7 + j) << (32 * w))) for j in range(4)] if i % 2 else []), 'threads': 4 + i % 5, 'reps': 1500 if q else 4000} for i, w in enumerate((1, 2, 4, 8, 16, 32, 64, 3) if q else tuple(range(1, 40)))]
+    import itertools as _it
+    for n in (2, 3, 4):
+        for combo in _it.product(('ok', 'fail', 'reconnect'), repeat=n):
+            if 'fail' in combo:
+                cases.append({'kind': 'send_hist', 'ops': [[5 + 11 * j, o] for j, o in enumerate(combo)] + [[3, 'reconnect'], [40, 'ok']]})
     cases += [{'kind': 'frame_ref', 'len': n, 'pad': p, 'fill': n} for n in range(1, 300 if q else 1200) for p in range(0, 4)]
     cases += [{'kind': 'frame_ref', 'len': n, 'pad': p, 'fill': n} for n in (1, 2, 3, 4, 5, 6, 7, 8, 19, 188, 1000) for p in range(0, 32)]     # every legal padding length 4..255
     ctx.map(cases, chunk=2000)
